@@ -110,7 +110,6 @@ def stepOutToJson (specName : String) (o : StepOut) : Json :=
   Json.mkObj [("stride", match o.stride with | none => .null | some s => strideToJson s),
               ("err", match o.err with | none => .null | some e => .str (errText specName e))]
 
-def boolsJson (l : List (String × Bool)) : Json := Json.mkObj (l.map (fun (k, b) => (k, Json.bool b)))
 
 def handleWalk (j : Json) : Json :=
   let spec := specOfJson ((getObj? j "spec").getD .null)
